@@ -22,7 +22,7 @@ package isaacdatabase
 
 //@ func (*TempPool).SetBallot
 //@   prop C24
-//@   requires db != nil && bl != nil && db.baseLeveldb != nil && (db.baseLeveldb.pst != nil ==> db.baseLeveldb.pst.Storage != nil && len(db.baseLeveldb.pst.prefix) < 1099511627776)
+//@   requires db != nil && bl != nil && db.baseLeveldb != nil && (db.baseLeveldb.pst != nil ==> db.baseLeveldb.pst.Storage != nil && len(db.baseLeveldb.pst.prefix) < 1099511627776 && db.baseLeveldb.pst.prefixlen >= 0)
 //@   callsite Exists requires a0 == leveldbBallotKey(bl.Point(), isaac.IsSuffrageConfirmBallotFact(bl.SignFact().Fact()))
 //@   callsite Put requires a0 == leveldbBallotKey(bl.Point(), isaac.IsSuffrageConfirmBallotFact(bl.SignFact().Fact())) && exfound == 0
 //@   ensures [stored-flag] r1 == nil && r0 ==> exfound == 0
@@ -40,7 +40,7 @@ package isaacdatabase
 // the same fact is stored
 //@ func (*TempPool).SetProposal
 //@   prop C24
-//@   requires db != nil && pr != nil && db.baseLeveldb != nil && pr.Fact() != nil && pr.ProposalFact() != nil && (db.baseLeveldb.pst != nil ==> db.baseLeveldb.pst.Storage != nil && len(db.baseLeveldb.pst.prefix) < 1099511627776)
+//@   requires db != nil && pr != nil && db.baseLeveldb != nil && pr.Fact() != nil && pr.ProposalFact() != nil && (db.baseLeveldb.pst != nil ==> db.baseLeveldb.pst.Storage != nil && len(db.baseLeveldb.pst.prefix) < 1099511627776 && db.baseLeveldb.pst.prefixlen >= 0)
 //@   callsite Exists requires a0 == leveldbProposalKey(pr.Fact().Hash())
 //@   callsite Put requires exfound == 0 && (a0 == leveldbProposalKey(pr.Fact().Hash()) || a0 == leveldbProposalPointKey(pr.ProposalFact().Point(), pr.ProposalFact().Proposer(), pr.ProposalFact().PreviousBlock()))
 //@   callsite Batch requires exfound == 0
@@ -53,7 +53,7 @@ package isaacdatabase
 //@   modifies *
 //@ func (*TempPool).Ballot
 //@   prop C24
-//@   requires db != nil && db.baseLeveldb != nil && (db.baseLeveldb.pst != nil ==> db.baseLeveldb.pst.Storage != nil && len(db.baseLeveldb.pst.prefix) < 1099511627776)
+//@   requires db != nil && db.baseLeveldb != nil && (db.baseLeveldb.pst != nil ==> db.baseLeveldb.pst.Storage != nil && len(db.baseLeveldb.pst.prefix) < 1099511627776 && db.baseLeveldb.pst.prefixlen >= 0)
 //@   callsite Get requires a0 == leveldbBallotKey(base.NewStagePoint(point, stage), isSuffrageConfirm)
 
 // ---- C20: reopening returns what was stored (last suffrage proof) ----------------------
@@ -69,7 +69,7 @@ package isaacdatabase
 //@   modifies *v
 //@ func (*LeveldbPermanent).loadLastSuffrageProof
 //@   prop C20
-//@   requires db != nil && db.basePermanent != nil && db.baseLeveldb != nil && db.proof != nil && (db.baseLeveldb.pst != nil ==> db.baseLeveldb.pst.Storage != nil && len(db.baseLeveldb.pst.prefix) < 1099511627776)
+//@   requires db != nil && db.basePermanent != nil && db.baseLeveldb != nil && db.proof != nil && (db.baseLeveldb.pst != nil ==> db.baseLeveldb.pst.Storage != nil && len(db.baseLeveldb.pst.prefix) < 1099511627776 && db.baseLeveldb.pst.prefixlen >= 0)
 //@   callsite Iter requires a2 == false
 //@   hof Iter#0 loop invariant iter <= 1
 //@   callsite SetValue requires exists([]byte(x), unbox(a0[1], []byte) == snd(ReadOneHeaderFrame(x)) && unbox(a0[2], []byte) == third(ReadOneHeaderFrame(x)))
@@ -79,7 +79,7 @@ package isaacdatabase
 // its first record); object, encoder hint, header and body come from that one record
 //@ func (*baseLeveldb).loadLastBlockMap
 //@   prop C20
-//@   requires db != nil && (db.pst != nil ==> db.pst.Storage != nil && len(db.pst.prefix) < 1099511627776)
+//@   requires db != nil && (db.pst != nil ==> db.pst.Storage != nil && len(db.pst.prefix) < 1099511627776 && db.pst.prefixlen >= 0)
 //@   callsite Iter requires a2 == false
 //@   hof Iter#0 loop invariant iter <= 1
 //@   hof Iter#0 loop invariant m != nil ==> exists([]byte(x), enchint == fst(ReadOneHeaderFrame(x)) && meta == snd(ReadOneHeaderFrame(x)) && body == third(ReadOneHeaderFrame(x)))
@@ -234,7 +234,7 @@ package isaacdatabase
 //@   trusted
 //@ func (*TempPool).SetOperation
 //@   prop C22
-//@   requires db != nil && op != nil && db.baseLeveldb != nil && (db.baseLeveldb.pst != nil ==> db.baseLeveldb.pst.Storage != nil && len(db.baseLeveldb.pst.prefix) < 1099511627776)
+//@   requires db != nil && op != nil && db.baseLeveldb != nil && (db.baseLeveldb.pst != nil ==> db.baseLeveldb.pst.Storage != nil && len(db.baseLeveldb.pst.prefix) < 1099511627776 && db.baseLeveldb.pst.prefixlen >= 0)
 //@   callsite Exists requires a0 == leveldbNewOperationKey(op.Hash())
 //@   callsite Put requires exfound == 0 && (a0 == leveldbNewOperationKey(op.Hash()) || a0 == leveldbNewOperationKeysKey(op.Hash()) || a1 == fst(WriteFrameHeaderOperation(op)))
 //@   callsite Batch requires exfound == 0
@@ -247,7 +247,7 @@ package isaacdatabase
 //@   pure
 //@ func (*TempPool).cleanByHeight
 //@   prop C24
-//@   requires db != nil && db.baseLeveldb != nil && deep >= 0 && deep < 1000 && (db.baseLeveldb.pst != nil ==> db.baseLeveldb.pst.Storage != nil && len(db.baseLeveldb.pst.prefix) < 1099511627776)
+//@   requires db != nil && db.baseLeveldb != nil && deep >= 0 && deep < 1000 && (db.baseLeveldb.pst != nil ==> db.baseLeveldb.pst.Storage != nil && len(db.baseLeveldb.pst.prefix) < 1099511627776 && db.baseLeveldb.pst.prefixlen >= 0)
 //@   callsite Delete requires j == nil || unbox(j, base.Height) <= height
 // keyf only records further deletions in the batch (opaque state here); it cannot reach the collected list
 //@   fnparam keyf pure
